@@ -169,7 +169,7 @@ func (g *exGen) toks(e *ex, minLevel int, mode int) []string {
 	return out
 }
 
-var seps = []string{" ", " ", "  ", "\t", "\n", " /*c*/ ", "/* x */", "\r\n"}
+var seps = []string{" ", " ", "  ", "\t", "\n", " /*c*/ ", "/* x */", "\r\n", " /*/ x */ ", "/**/", " /***/ ", " /*/*/ ", "/* * / */"}
 
 func (g *exGen) render(toks []string, fancy bool) string {
 	var sb strings.Builder
